@@ -17,11 +17,13 @@ structure Tables where
   handles : List (Hnd × Ino)
   cookies : List Hnd
   nextHandle : Nat
+  clobbered : Bool
+  lookups : Nat
 
 def St.tables (s : St) : Tables :=
   { data := s.data, byId := s.byId, byHandle := s.byHandle, next := s.next, devMap := s.devMap,
     nextUid := s.nextUid, nextVirt := s.nextVirt, handles := s.handles, cookies := s.cookies,
-    nextHandle := s.nextHandle }
+    nextHandle := s.nextHandle, clobbered := s.clobbered, lookups := s.lookups }
 
 @[simp] theorem tables_freeFd (s : St) : (freeFd s).tables = s.tables := rfl
 
@@ -64,7 +66,52 @@ def St.tables (s : St) : Tables :=
 @[simp] theorem tables_dropIData (s : St) (d : IData) : (dropIData s d).tables = s.tables := by
   unfold dropIData; split <;> simp
 
+@[simp] theorem tables_toOpenable (e : Env) (s : St) (fh : Option FhId) :
+    (toOpenable e s fh).1.tables = s.tables := by
+  unfold toOpenable; split <;> simp
+
+@[simp] theorem tables_dropPending (s : St) (fh : Option FhId) : (dropPending s fh).tables = s.tables := by
+  unfold dropPending; split <;> simp
+
+@[simp] theorem tables_settlePath (s : St) (fh : Option FhId) : (settlePath s fh).tables = s.tables := by
+  unfold settlePath; split <;> simp
+
 theorem data_of_tables {s t : St} (h : s.tables = t.tables) : s.data = t.data := by
   have := congrArg Tables.data h; simpa [St.tables] using this
+
+theorem clob_of_tables {s t : St} (h : s.tables = t.tables) : s.clobbered = t.clobbered := by
+  have := congrArg Tables.clobbered h; simpa [St.tables] using this
+
+theorem lookups_of_tables {s t : St} (h : s.tables = t.tables) : s.lookups = t.lookups := by
+  have := congrArg Tables.lookups h; simpa [St.tables] using this
+
+theorem byId_of_tables {s t : St} (h : s.tables = t.tables) : s.byId = t.byId := by
+  have := congrArg Tables.byId h; simpa [St.tables] using this
+
+theorem byHandle_of_tables {s t : St} (h : s.tables = t.tables) : s.byHandle = t.byHandle := by
+  have := congrArg Tables.byHandle h; simpa [St.tables] using this
+
+theorem next_of_tables {s t : St} (h : s.tables = t.tables) : s.next = t.next := by
+  have := congrArg Tables.next h; simpa [St.tables] using this
+
+theorem handles_of_tables {s t : St} (h : s.tables = t.tables) : s.handles = t.handles := by
+  have := congrArg Tables.handles h; simpa [St.tables] using this
+
+theorem cookies_of_tables {s t : St} (h : s.tables = t.tables) : s.cookies = t.cookies := by
+  have := congrArg Tables.cookies h; simpa [St.tables] using this
+
+theorem nextHandle_of_tables {s t : St} (h : s.tables = t.tables) : s.nextHandle = t.nextHandle := by
+  have := congrArg Tables.nextHandle h; simpa [St.tables] using this
+
+/-- the probes of the inode store only read the tables -/
+theorem getAlt_of_tables {s t : St} (h : s.tables = t.tables) (id : InodeId) (fh : Option FhId) :
+    getAlt s id fh = getAlt t id fh := by
+  unfold getAlt getByHandle getById
+  rw [data_of_tables h, byId_of_tables h, byHandle_of_tables h]
+
+theorem getInodeLocked_of_tables {s t : St} (h : s.tables = t.tables) (id : InodeId) (fh : Option FhId) :
+    getInodeLocked s id fh = getInodeLocked t id fh := by
+  unfold getInodeLocked
+  rw [byId_of_tables h, byHandle_of_tables h]
 
 end Fbr.PtRefs
